@@ -830,7 +830,7 @@ class C15C(EngineBase):
             "p_b": r.choice([0.02, 0.1]),
             "p_cold": r.choice([0.0005, 0.002]) if kind == "biased" else r.choice([0.002, 0.02]),
             "pct_d": r.choice([1, 2, 3]),
-            "bp_tries": 12 if tier == "quick" else 48,
+            "bp_tries": 8 if tier == "quick" else 48,
             # fraction of the attribute-storing (tier B) functions that are
             # also pre-emptible between bytecodes in this run
             "instr_b": r.choice([0.0, 0.0, 0.25, 0.5, 1.0]),
@@ -861,6 +861,9 @@ class C15C(EngineBase):
         ctx = ops.Ctx(rng, kinds=tuple(cfg["kinds"]), syms=tuple(cfg["syms"]),
                       p_inplace=0.0, sparsity=cfg["sparsity"], styles=False, max_heap=40)
         ctx.weights = {k: v for k, v in THREAD_OPS.items()}
+        # (the local operator builders are long pure-Python loops without any
+        # shared state: millions of pre-emption points that buy nothing)
+        ctx.local_builders = False
         out = []
         heap = {}
         # shared values: fresh arrays and a few derived ones (views, fused,
@@ -987,7 +990,7 @@ class C15C(EngineBase):
         st.executed_hot = executed
         return ref
 
-    def _concurrent(self, st, policy, instruction_level=True, record_sites=False):
+    def _concurrent(self, st, policy, instruction_level=True, record_sites=False, post_join=True):
         cfg = st.config
         core.world_reset(cfg["maxsize"], cfg["maxsectors"])
         shared = self._build_shared(st.shared_steps)
@@ -1031,7 +1034,7 @@ class C15C(EngineBase):
         # sequentially, on the very same shared arrays and warm hidden state;
         # a race that only damaged memoised state shows up here
         post = {}
-        if not record_sites:
+        if not record_sites and post_join:
             for tid in tids:
                 res = []
                 self._make_fn(st.tsteps[tid], _collections.ChainMap({}, shared), res)()
@@ -1121,7 +1124,10 @@ class C15C(EngineBase):
             nrep = cfg.get("bp_tries", 12)
         for rep in range(nrep):
             policy = self._policy(st, hot, sites, rep)
-            baton, shared, before, results = self._concurrent(st, policy)
+            # (the sequential re-run after joining is made for every fourth
+            # breakpoint try and for every other kind of run)
+            baton, shared, before, results = self._concurrent(
+                st, policy, post_join=(nrep == 1 or rep % 4 == 3))
             self._judge_run(st, policy, baton, shared, before, results, ref)
 
     def _judge_run(self, st, policy, baton, shared, before, results, ref):
